@@ -122,9 +122,15 @@ static struct passwd hx_pw[HX_NUSERS] = {
 static struct passwd hx_pwx;
 static char hx_pwx_name[32], hx_pwx_dir[48];
 
+/* the user data base fails to answer the N-th look-up from now on (once): what a flaky directory service does */
+static int hx_pw_fail_in;
+
 struct passwd*
 getpwuid(uid_t u)
 {
+	if (hx_pw_fail_in > 0 && --hx_pw_fail_in == 0) {
+		return NULL;
+	}
 	for (int i = 0; i < HX_NUSERS; i++) {
 		if (hx_pw[i].pw_uid == u) return &hx_pw[i];
 	}
@@ -773,7 +779,10 @@ hx_request(struct hx_reply_s *rp, uid_t u, const char *req, size_t len)
 	c = make_conn();
 	/* what get_peereuid() delivers: the bare ids of the peer, whether or not the user data base knows them */
 	{
+		const int keep = hx_pw_fail_in;
+		hx_pw_fail_in = 0;
 		ncred_t cr = compl_uid(u);
+		hx_pw_fail_in = keep;
 		c->cred = cr.u != NOT_A_UID ? cr : (ncred_t){u, u};
 	}
 	ev_io_init(&c->r, sock_data_cb, sv[1], EV_READ);
